@@ -126,10 +126,8 @@ func assertionGuarded(g *an.CFG, info *types.Info, ta *ast.TypeAssertExpr, loc a
 	if len(okVars) == 0 {
 		return false
 	}
-	for _, f := range g.DominatingFacts(loc) {
-		if f.Tag != nil {
-			continue
-		}
+	facts, _ := g.FactsFor(ta) // dominating branch facts (conjuncts) and short-circuit facts around the assertion
+	for _, f := range facts {
 		e := an.Unparen(f.Cond)
 		holds := f.Holds
 		for {
@@ -198,11 +196,9 @@ func r122Variadic(c *an.Ctx) {
 		for _, nd := range needs {
 			n++
 			construct := fmt.Sprintf("%s#%s", f.Name, nd.What)
-			loc, ok := g.LocOf(nd.Expr)
-			lb := 0
-			if ok {
-				lb = g.LenLowerBound(v, loc)
-			} else {
+			lb, ok := g.LenLowerBoundAt(v, nd.Expr)
+			if !ok {
+				lb = 0
 				// inside a function literal: facts established inside the literal, plus the
 				// bound at the point where the literal is created when the list is never reassigned
 				var lit *ast.FuncLit
@@ -218,8 +214,8 @@ func r122Variadic(c *an.Ctx) {
 					continue
 				}
 				lg := an.NewCFG(f.Pkg.TypesInfo, lit.Body)
-				if l2, ok2 := lg.LocOf(nd.Expr); ok2 {
-					lb = lg.LenLowerBound(v, l2)
+				if b2, ok2 := lg.LenLowerBoundAt(v, nd.Expr); ok2 {
+					lb = b2
 				}
 				reassigned := false
 				ast.Inspect(f.Decl.Body, func(x ast.Node) bool {
@@ -421,7 +417,7 @@ func r123Lookups(c *an.Ctx) {
 				return true
 			}
 			nVars++
-			if cfgOf().NonNilAt(o, loc) || definitelyNonNilDef(cfgOf(), info, o, loc, finders) {
+			if cfgOf().NonNilAtNode(o, se) || definitelyNonNilDef(cfgOf(), info, o, loc, finders) {
 				return true
 			}
 			if _, ok := reviewedDerefs[construct]; ok {
